@@ -1,5 +1,52 @@
-/- C02 — placeholder, replaced below -/
 import DateutilVerif.Model.Parser
 namespace C02
-theorem placeholder : True := trivial
+open PM Py
+
+/-- **two-digit years**: with `_century = _year // 100 * 100`, a year `0 ≤ y < 100` without a century is
+    mapped (by the translated `parserinfo.convertyear`) to THE year `y'` with `y' ≡ y (mod 100)` and
+    `-50 ≤ y' - now < 50`; uniqueness included. -/
+theorem convertyear_window (now y : Int) (h0 : 0 ≤ y) (h1 : y < 100) :
+    ∃ y', Gen.convertyear ⟨now / 100 * 100, now⟩ y false = .ok y' ∧
+      -50 ≤ y' - now ∧ y' - now < 50 ∧ y' % 100 = y ∧
+      ∀ z : Int, z % 100 = y → -50 ≤ z - now → z - now < 50 → z = y' := by
+  unfold Gen.convertyear
+  have hq : now / 100 * 100 = now - now % 100 := by omega
+  have hr : 0 ≤ now % 100 ∧ now % 100 < 100 := by omega
+  generalize now % 100 = r at hq hr
+  simp only [hq]
+  have hge : ¬ ¬ (y ≥ 0) := by omega
+  simp only [hge, if_false]
+  split
+  · split
+    · refine ⟨_, rfl, by omega, by omega, by omega, ?_⟩
+      intro z hz h2 h3; omega
+    · split
+      · refine ⟨_, rfl, by omega, by omega, by omega, ?_⟩
+        intro z hz h2 h3; omega
+      · refine ⟨_, rfl, by omega, by omega, by omega, ?_⟩
+        intro z hz h2 h3; omega
+  · rename_i hc; exact absurd ⟨h1, by simp⟩ hc
+
+/-- a year with a century (or ≥ 100) is left alone -/
+theorem convertyear_century (pi : Gen.PInfoYear) (y : Int) (h0 : 0 ≤ y) (cs : Bool) (h : cs = true ∨ 100 ≤ y) :
+    Gen.convertyear pi y cs = .ok y := by
+  unfold Gen.convertyear
+  have hge : ¬ ¬ (y ≥ 0) := by omega
+  simp only [hge, if_false]
+  split
+  · rename_i hc
+    rcases h with h | h
+    · simp [h] at hc
+    · omega
+  · rfl
+
+/-- the 12-hour clock: for every hour of the day, the 12-hour spelling (`12 AM` = 0, `12 PM` = 12,
+    `h PM` = h + 12) is mapped back by the translated `_adjust_ampm` -/
+theorem adjustAmpm_table (h : Int) (h0 : 0 ≤ h) (h1 : h < 24) :
+    Gen.adjustAmpm (if h % 12 = 0 then 12 else h % 12) (if h < 12 then 0 else 1) = h := by
+  unfold Gen.adjustAmpm
+  dsimp only
+  repeat' split
+  all_goals omega
+
 end C02
